@@ -144,6 +144,8 @@ def coq_expr(n) -> str:
         return f"(ECast {coq_expr(n[1])} {coq_string(n[2])})"
     if k == "paren":
         return f"(EParen {coq_expr(n[1])})"
+    if k == "pairwise":
+        return f"(EPairwise {'true' if n[1] else 'false'} {coq_string(n[2])} {coq_expr(n[3])} {coq_expr(n[4])})"
     raise Untranslatable(f"node {k}")
 
 
@@ -153,6 +155,74 @@ def _number(text: str):
     if re.fullmatch(r"\d*\.\d+|\d+\.\d*", text):
         return v_num(Fraction(text))
     raise Untranslatable(f"numeric literal {text!r}")
+
+
+AGGS = {"list_min": False, "array_min": False, "list_max": True, "array_max": True}
+TRANSFORMS = {"list_transform", "transform"}
+
+
+def _call(node):
+    """(lower-cased function name, args) of a function-call node, None otherwise"""
+    if isinstance(node, E.Anonymous):
+        return str(node.this).lower(), list(node.expressions)
+    if isinstance(node, E.Transform):
+        return "transform", [node.this, node.expression]
+    return None
+
+
+def _lambda(node, nparams=1):
+    if isinstance(node, E.Lambda) and len(node.expressions) == nparams and all(isinstance(p, E.Identifier) for p in node.expressions):
+        return [p.this for p in node.expressions], node.this
+    return None
+
+
+def _ident(node, name):
+    if isinstance(node, E.Column) and not node.args.get("table"):
+        node = node.this
+    return isinstance(node, E.Identifier) and node.this == name
+
+
+def match_pairwise(node):
+    """agg(transform(flatten(transform(L, x -> transform(R, y -> [x, y]))), pair -> f(pair[first], pair[first+1])))
+    -> (agg_is_max, transform name, f, L node, R node); None if the shape differs anywhere (fail-closed)."""
+    c = _call(node)
+    if not c or c[0] not in AGGS or len(c[1]) != 1:
+        return None
+    t1 = _call(c[1][0])
+    if not t1 or t1[0] not in TRANSFORMS or len(t1[1]) != 2:
+        return None
+    fl = _call(t1[1][0])
+    if not fl or fl[0] != "flatten" or len(fl[1]) != 1:
+        return None
+    t2 = _call(fl[1][0])
+    if not t2 or t2[0] != t1[0] or len(t2[1]) != 2:
+        return None
+    left, lx = t2[1][0], _lambda(t2[1][1])
+    if not lx:
+        return None
+    (x,), body = lx
+    t3 = _call(body)
+    if not t3 or t3[0] != t1[0] or len(t3[1]) != 2:
+        return None
+    right, ly = t3[1][0], _lambda(t3[1][1])
+    if not ly:
+        return None
+    (y,), arr = ly
+    if not (isinstance(arr, E.Array) and len(arr.expressions) == 2 and _ident(arr.expressions[0], x) and _ident(arr.expressions[1], y) and x != y):
+        return None
+    lp = _lambda(t1[1][1])
+    if not lp:
+        return None
+    (pair,), fbody = lp
+    fc = _call(fbody)
+    if not fc or len(fc[1]) != 2:
+        return None
+    for k, b in enumerate(fc[1]):
+        # sqlglot normalises the dialect's first array index to 0
+        if not (isinstance(b, E.Bracket) and _ident(b.this, pair) and len(b.expressions) == 1 and isinstance(b.expressions[0], E.Literal)
+                and not b.expressions[0].is_string and b.expressions[0].this == str(k)):
+            return None
+    return AGGS[c[0]], t1[0], fc[0], left, right
 
 
 def _convert(node, lenient: bool, sql_of):
@@ -166,6 +236,9 @@ def _convert(node, lenient: bool, sql_of):
         return fn("?" + h)
 
     t = type(node)
+    pw = match_pairwise(node)
+    if pw is not None:
+        return ("pairwise", pw[0], pw[2], rec(pw[3]), rec(pw[4]))
     if t is E.Paren:
         return ("paren", rec(node.this))
     if t is E.Column:
@@ -483,8 +556,13 @@ def level_grid(tier: str) -> list[LevelInst]:
         add("ArraySubsetLevel", str(emp), lambda emp=emp: cll.ArraySubsetLevel("arr", emp), gen, "arr_subset", [arr], empty_is_subset=emp)
     # PairwiseStringDistanceFunctionLevel (lambdas: outside the fragment, X only)
     for f, t in [("levenshtein", 1), ("damerau_levenshtein", 2), ("jaro_winkler", 0.9), ("jaro", 0.8)]:
+        def gen(d, f=f, t=t):
+            if d == "sqlite":
+                raise Unsupported("pairwise on sqlite")
+            a, b = lr(arr, d)
+            return f"gen_pairwise {coq_string(fname(d, f))} {'true' if HIGHER[f] else 'false'} {a} {b} {coq_val(py_number_val(t))}"
         add("PairwiseStringDistanceFunctionLevel", f"{f}:{t}", lambda f=f, t=t: cll.PairwiseStringDistanceFunctionLevel("arr", f, t),
-            lambda d: None, "pairwise", [arr], function=f, threshold=t)
+            gen, "pairwise", [arr], function=f, threshold=t, higher=HIGHER[f])
     # And / Or / Not
     comps = {
         "and2": (lambda: cll.And(cll.ExactMatchLevel("fn"), cll.LevenshteinLevel("sn", 1)),
